@@ -9,18 +9,20 @@ M = 'vlib.harness.C15_pool'
 # explore(cap, ndb, ha, ia, hb, ib, tick, dti, c0, c1, c2, c3, c4, k, check_liveness, exclude_f8, fault_level)
 
 RECIPES = [
-    # (name, cap, ndb, ha, ia, hb, ib)
-    ('empty.cap1.db2', 1, 2, 0, 0, 0, 0),
-    ('idle-a.cap1.db2', 1, 2, 0, 1, 0, 0),
-    ('held-a.cap1.db2', 1, 2, 1, 0, 0, 0),
-    ('held-a+idle-b.cap2.db3', 2, 3, 1, 0, 0, 1),
-    ('held-a+held-b.cap2.db3', 2, 3, 1, 0, 1, 0),
-    ('held-a+idle-a.cap2.db2', 2, 2, 1, 1, 0, 0),
-    ('2held-a+idle-b.cap3.db3', 3, 3, 2, 0, 0, 1),
+    # (name, cap, ndb, ha, ia, hb, ib, wb, wc): held / idle connections on a and b, requests queued on b and c
+    ('empty.cap1.db2', 1, 2, 0, 0, 0, 0, 0, 0),
+    ('idle-a.cap1.db2', 1, 2, 0, 1, 0, 0, 0, 0),
+    ('held-a.cap1.db2', 1, 2, 1, 0, 0, 0, 0, 0),
+    ('held-a+idle-b.cap2.db3', 2, 3, 1, 0, 0, 1, 0, 0),
+    ('held-a+held-b.cap2.db3', 2, 3, 1, 0, 1, 0, 0, 0),
+    ('held-a+idle-a.cap2.db2', 2, 2, 1, 1, 0, 0, 0, 0),
+    ('2idle-a.cap2.db3', 2, 3, 0, 2, 0, 0, 0, 0),
+    ('2held-a+idle-b.cap3.db3', 3, 3, 2, 0, 0, 1, 0, 0),
+    ('3held-a+idle-a.cap4.db3.queued-b2-c2', 4, 3, 3, 1, 0, 0, 2, 2),
 ]
 
 
-def _ob(pid, name, cap, ndb, ha, ia, hb, ib, k, live, fl, T, tick, dti, first=None, func='explore', finding=None):
+def _ob(pid, name, cap, ndb, ha, ia, hb, ib, wb, wc, k, live, fl, T, tick, dti, first=None, func='explore', finding=None):
     """tick / dti are concrete per obligation (so the recipe prefix and the
     pool code run natively); the schedule c0..c(k-1) is symbolic."""
     params, pre, cs = [], [], []
@@ -30,19 +32,19 @@ def _ob(pid, name, cap, ndb, ha, ia, hb, ib, k, live, fl, T, tick, dti, first=No
                 cs.append(str(first))
             else:
                 params.append(f'c{i}: int')
-                pre.append(f'0 <= c{i} <= 13')
+                pre.append(f'0 <= c{i} <= 17')
                 cs.append(f'c{i}')
         else:
             cs.append('0')
     args = f'{cap}, {ndb}, {ha}, {ia}, {hb}, {ib}, {tick}, {dti}, {", ".join(cs)}, {k}, {live}'
     if func == 'explore':
-        args += f', True, {fl}'
+        args += f', True, {fl}, {wb}, {wc}'
     oid = f'{name}.tick{int(tick)}.dt{dti}.k{k}' + (f'.first{first}' if first is not None else '') + f'.faults{fl}'
     return Ob(id=oid, module=M, func=func, params=', '.join(params), pre=pre, args=args, timeout=T,
               group=('liveness' if live else 'safety') + '.' + name, finding=finding,
               bound=f'recipe {name} (capacity {cap}, {ndb} databases; {ha} held + {ia} idle on a, {hb} held + {ib} idle on b; '
                     f'tick={tick}; clock increment #{dti} of {{0, 5 ms, 20 ms, 200 s}}) + {k} symbolic action(s), each any of the '
-                    f'<= 14 enabled ones (acquire on any db, release, release-as-broken, complete/fail a connect, complete'
+                    f'<= 18 enabled ones (acquire on any db, release, release-as-broken, complete/fail a connect, prune a database, prune all, complete'
                     + ('/fail' if fl >= 2 else '') + ' a disconnect, fire a timer)'
                     + (' + fair closure' if live else ''))
 
@@ -54,14 +56,14 @@ def obligations(pid, tier):
     obs = []
     kq = 3 if quick else 4
     fl = 1 if quick else 2
-    for name, cap, ndb, ha, ia, hb, ib in RECIPES:
+    for name, cap, ndb, ha, ia, hb, ib, wb, wc in RECIPES:
         for tick in (False, True):
             for dti in range(4):
                 if quick:
-                    obs.append(_ob(pid, name, cap, ndb, ha, ia, hb, ib, kq, live, fl, T, tick, dti))
+                    obs.append(_ob(pid, name, cap, ndb, ha, ia, hb, ib, wb, wc, kq, live, fl, T, tick, dti))
                 else:
-                    for first in range(14):
-                        obs.append(_ob(pid, name, cap, ndb, ha, ia, hb, ib, kq, live, fl, T, tick, dti, first=first))
+                    for first in range(18):
+                        obs.append(_ob(pid, name, cap, ndb, ha, ia, hb, ib, wb, wc, kq, live, fl, T, tick, dti, first=first))
     if live:
         obs.append(Ob(id='connect_failures', module=M, func='connect_failures', params='cap: int, nwait: int, kind: int, good_first: bool',
                       pre=['1 <= cap <= 3', '1 <= nwait <= 4', '0 <= kind <= 1'], timeout=T, group='connect failures',
